@@ -43,9 +43,10 @@ def call_name(node):
 
 
 class Tr:
-    def __init__(self, ret, subst=None):
+    def __init__(self, ret, subst=None, assume_true=()):
         self.ret = ret                 # type of the returned value ('Z', 'F', 'listZ', or tuple of those)
         self.subst = subst or {}       # unparsed source expression -> (coq name, type)
+        self.assume_true = set(assume_true)   # tests of a final `elif` without `else` that the registry declares exhaustive
         self.asserts = []
 
     # ---------------- expressions ----------------
@@ -392,6 +393,8 @@ class Tr:
         s, rest = stmts[0], list(stmts[1:])
         if isinstance(s, ast.Expr) and isinstance(s.value, ast.Constant) and isinstance(s.value.value, str):
             return self.block(rest, env)
+        if isinstance(s, ast.Pass):
+            return self.block(rest, env)
         if isinstance(s, ast.Assert):
             self.asserts.append(ast.unparse(s.test))
             return self.block(rest, env)
@@ -414,6 +417,9 @@ class Tr:
             ast.copy_location(eq, s)
             ast.fix_missing_locations(eq)
             return self.block([eq] + rest, env)
+        if isinstance(s, ast.If) and not s.orelse and ast.unparse(s.test) in self.assume_true:
+            self.asserts.append('assumed exhaustive: ' + ast.unparse(s.test))
+            return self.block(list(s.body) + rest, env)
         if isinstance(s, ast.If):
             # the statements after the `if` are continued in both branches (no merge of environments:
             # each path knows statically which names are None)
@@ -591,12 +597,33 @@ def translate_slice(spec, tree):
             selected.append(s)
             needed |= names_read(s)      # inputs that are re-assigned inside the region are followed as well
     selected.reverse()
+
+    def prune(stmt):
+        """inside a selected `if`, statements that do not touch the slice (e.g. string constants for other results) are dropped"""
+        if not isinstance(stmt, ast.If):
+            return stmt
+        def keep(body):
+            out = []
+            for b in body:
+                if isinstance(b, ast.If):
+                    pb = prune(b)
+                    if pb.body or pb.orelse:
+                        out.append(pb)
+                elif names_stored(b) & needed:
+                    out.append(b)
+            return out
+        new = ast.If(test=stmt.test, body=keep(stmt.body), orelse=keep(stmt.orelse))
+        if not new.body:
+            new.body = [ast.Pass()]
+        return ast.copy_location(new, stmt)
+    originals = list(selected)
+    selected = [ast.fix_missing_locations(prune(x)) for x in selected]
     sliced_names = set()
     for s in selected:
         sliced_names |= names_stored(s)
     # fail closed: nothing outside the slice may store to / mutate / alias-mutate a sliced name
     for s in seq:
-        if s in selected:
+        if s in originals:
             continue
         if names_stored(s) & sliced_names:
             fail(s, 'statement outside the slice assigns a sliced name')
@@ -619,7 +646,7 @@ def translate_slice(spec, tree):
                     fail(s, 'item/attribute assignment to a sliced name')
     # an input (e.g. the shuffled group order) must not be mutated once the slice has started
     for s in seq:
-        if s in selected:
+        if s in originals:
             continue
         for c in ast.walk(s):
             if isinstance(c, ast.Call):
@@ -637,7 +664,7 @@ def translate_slice(spec, tree):
     # the uses of the outputs (what the index vectors select) must be the expected ones
     uses = []
     for s in seq:
-        if s in selected:
+        if s in originals:
             continue
         for c in ast.walk(s):
             if isinstance(c, ast.Name) and c.id in spec['outputs'] and isinstance(c.ctx, ast.Load):
@@ -648,7 +675,8 @@ def translate_slice(spec, tree):
         raise Unsupported(f"{spec['func']}: the index vectors are used differently than declared: {uses}")
     outs = [ast.Name(id=o, ctx=ast.Load()) for o in spec['outputs']] + out_exprs
     ret = ast.Return(value=ast.Tuple(elts=outs, ctx=ast.Load()))
-    tr = Tr(tuple(spec['ret']) if len(outs) > 1 else spec['ret'][0])
+    tr = Tr(tuple(spec['ret']) if len(outs) > 1 else spec['ret'][0],
+            assume_true=[norm(t) for t in spec.get('assume_exhaustive', [])])
     if len(outs) == 1:
         ret = ast.Return(value=outs[0])
     ast.fix_missing_locations(ret)
